@@ -3,8 +3,12 @@
 package hc
 
 import (
+	"fmt"
 	"math/big"
 	"strings"
+
+	"github.com/wormhole-foundation/example-near-light-client/verifier"
+	"verifharness/data"
 
 	"github.com/consensys/gnark-crypto/ecc"
 	"github.com/consensys/gnark/frontend"
@@ -27,6 +31,9 @@ type Func struct {
 func (c *Func) Define(api frontend.API) error {
 	err := c.F.Fn(engine.Wrap(api, c.Cfg), c.In)
 	c.Cfg.Emit("enddefine")
+	if err == nil {
+		c.Cfg.EndOfDefine()
+	}
 	return err
 }
 
@@ -76,4 +83,77 @@ func FirstLine(err error) string {
 		s = s[:240]
 	}
 	return s
+}
+
+// VC wraps the repository's VerifierCircuit so that its Define runs against the proxy.
+type VC struct {
+	verifier.VerifierCircuit
+	Cfg *engine.Config `gnark:"-"`
+}
+
+func (c *VC) Define(api frontend.API) error {
+	err := c.VerifierCircuit.Define(engine.Wrap(api, c.Cfg))
+	c.Cfg.Emit("enddefine")
+	if err == nil {
+		c.Cfg.EndOfDefine()
+	}
+	return err
+}
+
+// FC wraps the repository's CircuitFixed.
+type FC struct {
+	verifier.CircuitFixed
+	Cfg *engine.Config `gnark:"-"`
+}
+
+func (c *FC) Define(api frontend.API) error {
+	err := c.CircuitFixed.Define(engine.Wrap(api, c.Cfg))
+	c.Cfg.Emit("enddefine")
+	if err == nil {
+		c.Cfg.EndOfDefine()
+	}
+	return err
+}
+
+// RunVerifier evaluates VerifierCircuit: template (shape, constants) and assignment (leaf values) may differ.
+func RunVerifier(cfg *engine.Config, tmpl, asg *data.Loaded) error {
+	mk := func(l *data.Loaded) *VC {
+		return &VC{VerifierCircuit: verifier.VerifierCircuit{PublicInputs: l.PWPI.PublicInputs, Proof: l.PWPI.Proof, VerifierData: l.VD, CommonCircuitData: l.Common}, Cfg: cfg}
+	}
+	return solve(mk(tmpl), mk(asg))
+}
+
+// RunFixed evaluates CircuitFixed with the given four public values.
+func RunFixed(cfg *engine.Config, tmpl, asg *data.Loaded, pub [4]*big.Int) error {
+	mk := func(l *data.Loaded) *FC {
+		c := &FC{CircuitFixed: verifier.CircuitFixed{ProofWithPis: l.PWPI, VerifierData: l.VD, CommonCircuitData: l.Common}, Cfg: cfg}
+		for i := range pub {
+			c.PublicInputs[i] = pub[i]
+		}
+		return c
+	}
+	return solve(mk(tmpl), mk(asg))
+}
+
+func solve(c, w frontend.Circuit) (err error) {
+	defer func() {
+		if r := recover(); r != nil {
+			err = fmt.Errorf("panic outside Define: %v", r)
+		}
+	}()
+	return test.IsSolved(c, w, ecc.BN254.ScalarField())
+}
+
+// PackPublic computes the four honest on-chain public values from the 16 public-input limbs.
+func PackPublic(pis []*big.Int) [4]*big.Int {
+	var out [4]*big.Int
+	for j := 0; j < 4; j++ {
+		acc := new(big.Int)
+		for i := 0; i < 4; i++ {
+			acc.Lsh(acc, 32)
+			acc.Add(acc, pis[4*j+i])
+		}
+		out[j] = acc
+	}
+	return out
 }
